@@ -20,7 +20,7 @@ class C14(Prop):
     level_rule = ('declaration sets over a 3-identifier alphabet nested to depth 3 (through the real parser), '
                   'searched names of 1..3 identifiers, all calling scopes; sampled beyond (depth<=6); '
                   'identifier candidates: ASCII, Unicode letters/digits, trailing newline, empty, '
-                  'separators and mixtures; non-trivial = a lookup whose result is non-empty or an '
+                  'separators and mixtures; every handed-out value is extended in place and the call repeated (no aliasing with library state); non-trivial = a lookup whose result is non-empty or an '
                   'identifier candidate with a separator; distinct = distinct case')
 
     def streams(self, rng, tier):
@@ -64,7 +64,19 @@ class C14(Prop):
         from dznpy.scoping import scope_resolution_order, namespaceids_t, NamespaceIds
         from dznpy.ast_view import find_fqn, find_any
         op = case['op']
+        import copy
+
+        def scribble(x):
+            # the caller owns what it was handed: extend it in place (the public `+=`); a later, equal call
+            # must not see that (no value handed out may be shared with the library's own state)
+            try:
+                x += NamespaceIds(['zz_scribbled'])
+            except Exception:  # noqa
+                pass
         if op == 'sro':
+            r0 = scope_resolution_order(NamespaceIds(list(case['name'])), NamespaceIds(list(case['scope'])))
+            for x in r0:
+                scribble(x)
             r = scope_resolution_order(NamespaceIds(list(case['name'])), NamespaceIds(list(case['scope'])))
             return [list(x.items) for x in r]
         if op in ('find_fqn', 'find_any'):
@@ -80,14 +92,16 @@ class C14(Prop):
         if op == 'ids_t':
             try:
                 v = case['value']
-                return {'ok': list(namespaceids_t(v).items)}
+                scribble(namespaceids_t(copy.deepcopy(v)))
+                return {'ok': list(namespaceids_t(copy.deepcopy(v)).items)}
             except Exception as e:  # noqa
                 return {'err': err_tag(e)}
         if op == 'ids_notations':
             out = []
             for v in (list(case['ids']), '.'.join(case['ids']), '::'.join(case['ids'])):
                 try:
-                    out.append({'ok': list(namespaceids_t(v).items)})
+                    scribble(namespaceids_t(copy.deepcopy(v)))
+                    out.append({'ok': list(namespaceids_t(copy.deepcopy(v)).items)})
                 except Exception as e:  # noqa
                     out.append({'err': err_tag(e)})
             return out
